@@ -117,7 +117,7 @@ int main(int argc, char **argv) {
             long lkb = vh_locks - vh_unlocks, ovb = vh_overlap_copies, bfb = vh_badfree;
             int newmem = (int) (vh_step & 1);
             ob.n = 0; vh_bprintf(&ob, "%s", "");
-            vh_watchdog(2);
+            vh_watchdog(6);
             errno = 0;
             vh_call_begin();
             if (inject) { if (inj_at) vh_fail_at = kk; else vh_fail_from = kk; }
